@@ -36,6 +36,7 @@ func cmdRerun(args []string) {
 		P     int    `json:"p"`
 		Seq   string `json:"seq"`
 		Stops []int  `json:"stops"`
+		Req   []int  `json:"req"`
 		Nest  []int  `json:"nest"`
 	}
 	type line struct {
@@ -56,6 +57,7 @@ func cmdRerun(args []string) {
 		P     int    `json:"p"`
 		Seq   string `json:"seq"`
 		Stops []int  `json:"stops"`
+		Req   []int  `json:"req"`
 		Nest  []int  `json:"nest"`
 		Hasd  bool   `json:"hasd"`
 	}
@@ -114,8 +116,8 @@ func cmdRerun(args []string) {
 			case "Dump":
 				rec.DumpLine()
 			case "Iter":
-				var stops []int
-				for i := 0; i < len(it.Stops); i++ {
+				stops := it.Req
+				for i := 0; i < len(it.Stops) && len(it.Req) == 0; i++ {
 					isNest := false
 					for _, n := range it.Nest {
 						if n == i {
@@ -169,7 +171,7 @@ func cmdRerun(args []string) {
 		case "GC":
 			envGC(tr)
 		default:
-			read(item{Op: e.Op, K: e.K, A: e.A, B: e.B, N: e.N, NX: e.NX, P: e.P, Seq: e.Seq, Stops: e.Stops, Nest: e.Nest})
+			read(item{Op: e.Op, K: e.K, A: e.A, B: e.B, N: e.N, NX: e.NX, P: e.P, Seq: e.Seq, Stops: e.Stops, Req: e.Req, Nest: e.Nest})
 		}
 	}
 	tr.Close()
